@@ -364,7 +364,10 @@ pub fn run(c: &Case, o: &mut Outcome) -> Result<(), Failure> {
         }
     }
     let has_trailers = trailers.is_some() && !body_error_injected;
-    let body = ScriptBody::new(steps);
+    let mut body = ScriptBody::new(steps);
+    // half of the cases: the body says exactly when it has ended (hyper's bodies do)
+    body.eos = (c.sizes.len() + c.frames.len()) % 2 == 1;
+    o.label_if(body.eos, "body_reports_end_of_stream");
     let probe = body.probe.clone();
     // every DATA frame reaches the decoder as a two-segment Buf (split point derived from the case)
     let seg = (c.sizes.len() as u8).wrapping_mul(53) ^ (c.buffer_size as u8);
